@@ -2,6 +2,7 @@ import RedisVerif.Driver.Codec
 import RedisVerif.Driver.Crc32
 import RedisVerif.Driver.C10
 import RedisVerif.Model.Codec
+import RedisVerif.Driver.Bincode
 
 /-
   C14 sub-driver (stateful: base segment image, base checkpoint image).
@@ -20,6 +21,14 @@ import RedisVerif.Model.Codec
     g <variant> <len>            → the round-trip law of the gossip codec ("roundtrip ok")
     W <ts> <hex>                 → encoded WAL entry for the payload (from_delta + encode)
     wd <hex>                     → WalEntry::decode
+    SH | CH                      → header / footer fields of the base segment / base checkpoint (the readers' accessors)
+    cl <len> | clx <pos> <val>   → `CheckpointReader::open` + `load` WITHOUT `validate` on the cut / substituted base checkpoint
+    sxf <pos> <val>              → base segment with one RECORD byte replaced and the footer's data checksum
+                                   recomputed (the damage reaches the deserialiser): decoded deltas, field by field
+    cxf <pos> <val>              → the same for a payload byte of the base checkpoint (data and footer checksums recomputed)
+    V … <checked 0|1>            → third field: `CheckpointReader::load` bounds-checks (1) or panics (0) on a short image
+    BD <hex> | BS <hex> | U8 <hex>   → the concrete bincode model (`Driver/Bincode.lean`): a delta payload /
+                                 a checkpoint payload decoded and printed field by field; UTF-8 validity
 -/
 namespace RedisVerif.Driver.C14
 open RedisVerif RedisVerif.Driver RedisVerif.Wal RedisVerif.Codec
@@ -29,15 +38,18 @@ def crc : Bytes → Nat := crc32
 def errName : Codec.Err → String
   | .eof => "eof" | .magic => "magic" | .version => "version" | .checksum => "checksum"
   | .compression => "compression" | .ser => "ser" | .tooSmall => "tooSmall"
-  | .noLength => "noLength" | .noFooter => "noFooter" | .size => "size"
+  | .noLength => "noLength" | .noFooter => "noFooter" | .size => "size" | .truncated => "truncated"
 
 structure St where
   fmt : Format := .v2
   strict : Bool := true
+  loadChecked : Bool := false
   seg : Bytes := []
   segPayloads : List Bytes := []
   chk : Bytes := []
   chkPayload : Option Bytes := none
+  /-- canonical text of the state the base checkpoint's payload decodes to (model's bincode decoder) -/
+  chkState : Option String := none
 
 def idxOf (ps : List Bytes) (p : Bytes) : String :=
   match ps.findIdx? (· == p) with
@@ -56,10 +68,62 @@ def showChk (base : Option Bytes) : Res Bytes → String
   | .error e => s!"err {errName e}"
   | .ok p => if some p == base then "ok same" else "ok diff"
 
+def showLoad (base : Option String) : LoadRes Bincode.WState → String
+  | .crash => "crash"
+  | .error e => s!"err {errName e}"
+  | .ok st => if some (Bin.showState st) == base then "ok same" else "ok diff"
+
 def step (s : St) (line : String) : St × String :=
+  match Bin.step? (tokens line) with
+  | some o => (s, o)
+  | none =>
   match tokens line with
   | ["V", v, k] => ({ s with fmt := if v == "1" then .v1 else .v2, strict := k != "0" },
       s!"format {if v == "1" then 1 else 2} strict {if k != "0" then 1 else 0}")
+  | ["V", v, k, c] => ({ s with fmt := if v == "1" then .v1 else .v2, strict := k != "0", loadChecked := c != "0" },
+      s!"format {if v == "1" then 1 else 2} strict {if k != "0" then 1 else 0} load-checked {if c != "0" then 1 else 0}")
+  | ["FMT"] =>
+    -- computed from what the model's WRITERS produce (not literals of the driver)
+    let sh := segHeader crc 0 0 0
+    let ch := chkHeader crc 0 0 0
+    (s, s!"seg-magic {hexOfBytes (sh.take 4)} foot-magic {hexOfBytes ((segFooter crc []).drop 20)} seg-version {(sh.drop 4).headD 0} seg-header {sh.length} seg-footer {(segFooter crc []).length} chk-magic {hexOfBytes (ch.take 4)} chk-version {(ch.drop 4).headD 0} chk-header {ch.length}")
+  | ["SH"] =>
+    let b := s.seg
+    let n := b.length
+    (s, s!"count {leVal ((b.drop 6).take 4)} min {leVal ((b.drop 10).take 8)} max {leVal ((b.drop 18).take 8)} hcrc {leVal ((b.drop 26).take 4)} dcrc {leVal ((b.drop (n - 24)).take 4)} usize {leVal ((b.drop (n - 20)).take 8)} csize {leVal ((b.drop (n - 12)).take 8)} total {n}")
+  | ["CH"] =>
+    let b := s.chk
+    (s, s!"keys {leVal ((b.drop 8).take 8)} ts {leVal ((b.drop 16).take 8)} last {leVal ((b.drop 24).take 8)} compressed {if ((b.drop 5).take 1).any (fun x => x % 2 = 1) then 1 else 0}")
+  | ["cl", l] =>
+    (match l.toNat? with
+    | some n => (s, showLoad s.chkState (loadCheckpoint s.loadChecked crc Bincode.deState (s.chk.take n)))
+    | none => (s, "bad-op"))
+  | ["clx", p, v] =>
+    (match p.toNat?, v.toNat? with
+    | some p, some v => (s, showLoad s.chkState (loadCheckpoint s.loadChecked crc Bincode.deState (s.chk.set p v)))
+    | _, _ => (s, "bad-op"))
+  | ["sxf", p, v] =>
+    (match p.toNat?, v.toNat? with
+    | some p, some v =>
+      let img := s.seg.set p v
+      let n := img.length
+      let recs := (img.drop 40).take (n - 64)
+      let fixed := img.take (n - 24) ++ (le 4 (crc recs) ++ img.drop (n - 20))
+      (s, match readSegment s.strict crc Bincode.deDelta fixed with
+          | .error e => s!"err {errName e}"
+          | .ok ds => " | ".intercalate (s!"ok {ds.length}" :: ds.map Bin.showDelta))
+    | _, _ => (s, "bad-op"))
+  | ["cxf", p, v] =>
+    (match p.toNat?, v.toNat? with
+    | some p, some v =>
+      let img := s.chk.set p v
+      let n := img.length
+      let payload := (img.drop 52).take (n - 68)
+      let fixed := img.take (n - 16) ++ chkFooter crc payload
+      (s, match readCheckpoint crc Bincode.deState fixed with
+          | .error e => s!"err {errName e}"
+          | .ok st => s!"ok {Bin.showState st}")
+    | _, _ => (s, "bad-op"))
   | "g" :: _ =>
     -- gossip codec instance (`Codec.gossip`): serde_json itself is not modelled; the line states the
     -- law `de (ser m) = some m` and the implementation's answer is compared with it
@@ -114,7 +178,8 @@ def step (s : St) (line : String) : St × String :=
     | some (img, _) =>
       let r := readChk img
       let base := match r with | .ok p => some p | .error _ => none
-      ({ s with chk := img, chkPayload := base }, showChk base r)
+      ({ s with chk := img, chkPayload := base,
+                chkState := base.bind (fun p => (Bincode.deState p).map Bin.showState) }, showChk base r)
     | none => (s, "bad-op"))
   | ["ct", l] =>
     (match l.toNat? with
